@@ -126,6 +126,17 @@ pub fn echo_mismatch(v: &IxView, adaptive_only: bool) -> Option<String> {
                 return Some(format!("set_default_protocol_fee_rate({}) left {}", x, g.default_protocol_fee_rate));
             }
         }
+        "initialize_config_extension" => {
+            // born for the named config, under the fee authority that created it (not under whoever paid the rent)
+            let d = v.post.data(&c.a("config_extension"))?;
+            if d.len() >= 104 {
+                let (cfg, a1, a2) = (Pubkey::new_from_array(d[8..40].try_into().ok()?), Pubkey::new_from_array(d[40..72].try_into().ok()?), Pubkey::new_from_array(d[72..104].try_into().ok()?));
+                let fa = c.a("fee_authority");
+                if cfg != c.a("config") || a1 != fa || a2 != fa {
+                    return Some(format!("initialize_config_extension by fee authority {} (rent paid by {}) created an extension of config {} with authorities {} / {}", fa, c.a("funder"), cfg, a1, a2));
+                }
+            }
+        }
         "initialize_fee_tier" => {
             let (sp, rate) = (r.u16(), r.u16());
             let t = v.post.data(&c.a("fee_tier")).and_then(decode::fee_tier)?;
